@@ -776,6 +776,11 @@ impl Walrus {
                 });
                 planned_bytes += (end - cur_off) as usize;
             }
+            if end < block.used {
+                // The byte budget truncated this block's range: later blocks and the
+                // writer tail must not be planned (and committed) past the unread rest.
+                break;
+            }
             cur_idx += 1;
             cur_off = 0;
         }
